@@ -4,7 +4,8 @@
 (* Limiter for the accounting clauses) inside a real Simulation, recorded by  *)
 (* harness/families/c10_entity.py at every handler return.                    *)
 (*   [ id, cap (queue capacity), model (1 = replay the RateLimitedEntity      *)
-(*     handler model), spin (0 | 1: the run was aborted because the drain     *)
+(*     handler model), order (1 = judge the arrival-order clause: only the    *)
+(*     RateLimitedEntity, the statement's "rate-limited entity"), spin (0 | 1: the run was aborted because the drain     *)
 (*     poll re-ran > K times at one instant and the policy calls do not       *)
 (*     explain it),                                                           *)
 (*     steps: << <<kind, rid, acq, out, fid, poll, recv, fwd, depth, drop>> >> *)
@@ -53,7 +54,7 @@ Init == /\ ti = 1 /\ l = 1 /\ Q = <<>> /\ armed = FALSE /\ done = <<>> /\ drp = 
 FwdVerdict(x, isFresh) ==
     IF x \in Ids(done) \/ x \in drp THEN "PROP:exactly_once"
     ELSE LET over == {y \in Ids(done) : y > x} IN
-         IF over = {} THEN ""
+         IF over = {} \/ T.order # 1 THEN ""
          ELSE IF over \subseteq fresh THEN "PROP:order_fresh_overtakes_queued" ELSE "PROP:order"
 
 Step(r) ==
@@ -110,7 +111,9 @@ EndVerdict ==
        ELSE IF (f \cup q \cup drp) # all \/ f \cap q # {} \/ f \cap drp # {} \/ q \cap drp # {} THEN "PROP:exactly_once"
        ELSE IF Len(Q) # cnt[3] \/ Len(done) # cnt[2] \/ Cardinality(drp) # cnt[4] THEN "PROP:accounting"
        ELSE ""
-EndModel == IF T.sink # done THEN "MODEL:sink_differs_from_forwards" ELSE ""
+\* the downstream log is the forward log, except for a tail still undelivered when the run ended
+IsPrefix(a, b) == Len(a) <= Len(b) /\ \A i \in 1..Len(a) : a[i] = b[i]
+EndModel == IF ~IsPrefix(T.sink, done) THEN "MODEL:sink_differs_from_forwards" ELSE ""
 
 Finish(verdict, pos, mv, mp) ==
     /\ PrintT(<<"V", T.id, verdict, pos>>)
